@@ -793,6 +793,66 @@ fn extract_next_batch<'a>(
     Some(blocks.drain(..block_count))
 }
 
+/// Verification seam: thin wrappers around the private block/prefix/batching functions (no logic).
+#[cfg(litep2p_verif)]
+pub mod verif {
+    use super::*;
+
+    pub use super::config::{MAX_BATCH_SIZE, MAX_MESSAGE_SIZE};
+
+    /// `Prefix::from_bytes` as `(version, codec, multihash type, multihash length)`.
+    pub fn prefix_from_bytes(bytes: &[u8]) -> Option<(u64, u64, u64, u8)> {
+        Prefix::from_bytes(bytes)
+            .map(|p| (p.version.into(), p.codec, p.multihash_type, p.multihash_len))
+    }
+
+    /// `Prefix::to_bytes`.
+    pub fn prefix_to_bytes(version: Version, codec: u64, multihash_type: u64, multihash_len: u8) -> Vec<u8> {
+        Prefix {
+            version,
+            codec,
+            multihash_type,
+            multihash_len,
+        }
+        .to_bytes()
+    }
+
+    /// `block_to_response` for a block given as `(prefix, data)`.
+    pub fn block_to_response(peer: &PeerId, prefix: Vec<u8>, data: Vec<u8>) -> Option<ResponseType> {
+        super::block_to_response(peer, schema::bitswap::Block { prefix, data })
+    }
+
+    /// `blocks_message`.
+    pub fn blocks_message(blocks: Vec<(Cid, Vec<u8>)>) -> Option<(Bytes, usize)> {
+        super::blocks_message(blocks)
+    }
+
+    /// `presences_message`.
+    pub fn presences_message(presences: Vec<(Cid, BlockPresenceType)>) -> Option<(Bytes, usize)> {
+        super::presences_message(presences)
+    }
+
+    /// `extract_next_batch`, with the drained batch collected.
+    pub fn extract_next_batch(
+        blocks: &mut VecDeque<(Cid, Vec<u8>)>,
+        max_batch_size: usize,
+    ) -> Option<Vec<(Cid, Vec<u8>)>> {
+        super::extract_next_batch(blocks, max_batch_size).map(|batch| batch.collect())
+    }
+
+    /// Decode a Bitswap wire message into its `(prefix, data)` payload blocks, the number of
+    /// wantlist entries and the number of block presences.
+    #[allow(clippy::type_complexity)]
+    pub fn decode_message(bytes: &[u8]) -> Option<(Vec<(Vec<u8>, Vec<u8>)>, usize, usize)> {
+        let message = schema::bitswap::Message::decode(bytes).ok()?;
+        Some((
+            message.payload.into_iter().map(|b| (b.prefix, b.data)).collect(),
+            message.wantlist.map_or(0, |w| w.entries.len()),
+            message.block_presences.len(),
+        ))
+    }
+}
+
 #[cfg(test)]
 mod tests {
     use cid::multihash::Multihash;
